@@ -4,7 +4,7 @@ from __future__ import annotations
 
 import ast
 
-from ..core import AnalysisError, Check, Scope, norm, strip_docstring, walk_no_nested
+from ..core import AnalysisError, Check, Scope, classify_memo_key, memo_tables, norm, strip_docstring, walk_no_nested
 from ..deps import DepInterp, DepSt
 from ..variants import Variant
 
@@ -26,9 +26,11 @@ class C17(Check):
               "expression, for every component kind (derived, reactions, initial assignments, computed coefficients)",
         "U3": "every initial assignment of the document is applied to a parameter or a variable, or refused",
         "U4": "the stoichiometry transform is exhaustive: number -> number, symbol -> name, anything else -> computed coefficient",
+        "U6": "no memoisation of imported models keyed by the path alone (or by other non-injective keys): a document rewritten at the "
+              "same path must be imported anew",
         "U5": "the generated source is written before it is imported, and the model is built from exactly that module",
     }
-    floors = {"U1": 2, "U2": 4, "U4": 1, "U5": 2}
+    floors = {"U1": 2, "U2": 4, "U4": 1, "U5": 2, "U6": 1}
     decided = [
         "two documents read in one session (same stem, different directory or content) get different generated modules",
         "generated functions are called with the arguments they were defined with",
@@ -87,6 +89,19 @@ class C17(Check):
             self.holds("U1", MOD, "_codegen", "file-path-key", path_stmt[0], "the generated file is named after the same key as the module")
         else:
             self.violated("U1", MOD, "_codegen", "file-path-key", path_stmt[0] if path_stmt else cgf, "generated file name and module key are derived differently")
+        # ---- U6
+        n6 = 0
+        for tname, qual, key, node in memo_tables(mod):
+            n6 += 1
+            c6 = classify_memo_key(key)
+            if c6 == "ok":
+                self.holds("U6", MOD, qual, f"memo {tname}", node, f"module-level table `{tname}` keyed by `{key[:60]}`")
+            else:
+                self.violated("U6", MOD, qual, f"memo {tname}", node,
+                              f"module-level table `{tname}` is keyed by `{key[:70]}` ({'the path but not the content of the document' if c6 == 'path-only' else 'a non-injective name'}): "
+                              "a different document at the same key is answered with the model imported before",
+                              witness="write A to m.xml, read it; write B to m.xml, read it: the second read returns A's model")
+        self.holds("U6", MOD, "<module>", "module-level-state", mod.tree, f"{n6} module-level memo table(s) written by functions of the import module")
         # ---- U5
         opens = [n for n in walk_no_nested(cgf) if isinstance(n, ast.With)]
         ret = [r for r in walk_no_nested(cgf) if isinstance(r, ast.Return)]
@@ -169,6 +184,7 @@ class C17(Check):
         return [
             Variant("reintroduce-stem-only", MOD, "read", "out_name = f'{valid_filename(file.stem)}_{digest}'", "out_name = valid_filename(file.stem)", expect="U1|", quick=True),
             Variant("digest-of-path-only", MOD, "read", "hashlib.sha256(str(file.resolve()).encode() + b'\\x00' + file.read_bytes())", "hashlib.sha256(str(file.resolve()).encode())", expect="U1|", quick=True),
+            Variant("imported-models-cached-by-path", MOD, "", "def read(file: Path) -> Model:", "_IMPORTED: dict = {}\n\n\ndef _remember(file, model_fn):\n    _IMPORTED[file.resolve()] = model_fn\n\n\ndef read(file: Path) -> Model:", expect="U6|", quick=True),
             Variant("digest-of-stem", MOD, "read", "hashlib.sha256(str(file.resolve()).encode() + b'\\x00' + file.read_bytes())", "hashlib.sha256(file.stem.encode())", expect="U1|", quick=True),
             Variant("args-from-other-expression", MOD, "_codegen", "sym.derived[key] = SymbolicFn(fn_name=key, expr=der, args=free_symbols(der))",
                     "sym.derived[key] = SymbolicFn(fn_name=key, expr=der, args=sorted(model.parameters))", expect="U2|", quick=True),
